@@ -8,6 +8,7 @@ as observed.  It never looks at library state.
 """
 from sim import refdec
 from sim.core import RES
+from .timing import fire_limit
 from .session import SessionModel
 
 INF = float("inf")
@@ -164,14 +165,11 @@ class DiscoveryOracle:
                 self._kill(sk, "conn_lost")
 
     def on_busy(self, T, d):
-        self.busy.append((T - d, T))
+        pass
         self.epoch_kinds.add("busy")
 
     def expected_fire(self, d):
-        for t0, t1 in self.busy:
-            if t0 - RES <= d <= t1 + RES:
-                return t1
-        return d
+        return fire_limit(self.busy, d)
 
     def on_cb(self, idx, T, kind, lname, key, src):
         self.ncb += 1
@@ -276,6 +274,7 @@ class DiscoveryOracle:
 
     # ---------------------------------------------------------------- driver
     def walk(self, log):
+        self.busy = [(e[2] - e[5], e[2]) for e in log if e[4] == "busy"]  # part of the plan: known up front
         for idx, (seq, it, T, actor, kind, data) in enumerate(log):
             if kind == "idle":
                 self.on_idle(T)
